@@ -190,3 +190,19 @@ Proof.
   destruct (posvel_block_is_rotation _ H1) as [C1 [C2 _]]. destruct (posvel_block_is_rotation _ H2) as [D1 [D2 _]].
   unfold acr2trs in *. repeat split; assumption.
 Qed.
+
+(* ---------------------------------------------------------------- two-hop conversions *)
+(* the two-hop conversions ENU <-> ACR of position/velocity differences (over TRS) *)
+Lemma enu_acr_composition lat lon r v d :
+  cross r v <> vzero ->
+  rotation (mmul (trs2acr r v) (enu2trs lat lon)) /\ rotation (mmul (trs2enu lat lon) (acr2trs r v)) /\
+  mvec (trs2acr r v) (mvec (enu2trs lat lon) d) = mvec (mmul (trs2acr r v) (enu2trs lat lon)) d /\
+  mvec (trs2enu lat lon) (mvec (acr2trs r v) (mvec (trs2acr r v) (mvec (enu2trs lat lon) d))) = d /\
+  mvec (enu2trs lat lon) (mvec (trs2enu lat lon) (mvec (acr2trs r v) d)) = mvec (acr2trs r v) d.
+Proof.
+  intros H. destruct (acr_orthonormal_rh r v H) as [A1 A2]. destruct (enu_rotation lat lon) as [E1 E2].
+  split; [apply rotation_mul; assumption|]. split; [apply rotation_mul; assumption|].
+  split; [symmetry; apply mvec_mul|]. split.
+  - unfold acr2trs. rewrite (rotation_roundtrip _ _ A1). apply (proj2 (enu_roundtrip lat lon d)).
+  - apply (proj1 (enu_roundtrip lat lon _)).
+Qed.
